@@ -214,6 +214,67 @@ def _clone_check(spec, t):
 
 
 @safe_oracle
+def oracle_clone_midrun(args):
+    """a clone taken WHILE the original is running (through a trace() hook, after step k) and then run on its own evolves exactly
+    as the uninterrupted original does from that step: same snapshots, same events (with their logged rates), same A-FSSH
+    moments at the end. (The clone's own log repeats the snapshot at which it was taken: simulate() logs its starting point.)"""
+    import mudslide
+    spec = dict(args)
+    k = int(spec["k"])
+    rng = np.random.Generator(np.random.PCG64(spec["model_seed"]))
+    if spec.get("builtin"):
+        model = mudslide.models.scattering_models[spec["builtin"]]()
+        x0, p0 = np.array([-5.0]), np.array([float(spec["p"])])
+        dt = 10.0
+    else:
+        N = 2 if spec["cls"] == "AugmentedFSSH" else spec["N"]
+        model = SynthModel(rng, N, spec["n"], scale=0.1, gap=0.0, mass=10 ** rng.uniform(0, 1.5, size=spec["n"]))
+        x0, p0 = rng.normal(size=spec["n"]) * 0.5, rng.normal(size=spec["n"]) * 2 + 1
+        dt = 0.5
+    base = getattr(mudslide, spec["cls"])
+    clones = []
+
+    class Hooked(base):
+        def trace(self, force=False):
+            base.trace(self, force)
+            if self.nsteps == k and not clones and not getattr(self, "_verif_is_clone", False):
+                c_ = self.clone()
+                c_._verif_is_clone = True
+                clones.append(c_)
+    t = Hooked(model, x0, p0, 0, dt=dt, max_steps=k + int(spec["more"]), seed_sequence=spec["seed"], queue=queue.Queue())
+    t.simulate()
+    problems = []
+    if not clones:
+        return True, {"cloned": False}, {}, "the run ended before step %d" % k
+    c = clones[0]
+    c.simulate()
+    a = list(t.tracer)
+    b = list(c.tracer)
+    ia = [i for i, s_ in enumerate(a) if s_["time"] > a[0]["time"] + (k - 0.5) * dt]
+    tail_a = a[ia[0]:] if ia else []
+    tail_b = b[len(b) - len(tail_a):] if len(tail_a) <= len(b) else b
+    if len(tail_a) != len(tail_b) or not _same(tail_a, tail_b):
+        bad = next((i for i, (x_, y_) in enumerate(zip(tail_a, tail_b)) if not _same(x_, y_)), None)
+        problems.append("the clone's snapshots after step %d differ from the original's (first at +%r steps; %d vs %d snapshots)"
+                        % (k, bad, len(tail_b), len(tail_a)))
+    tc = a[ia[0]]["time"] if ia else None
+    for kind in set(getattr(t.tracer, "events", {})) | set(getattr(c.tracer, "events", {})):
+        ea = [dict(e) for e in t.tracer.events.get(kind, []) if tc is not None and e.get("time", 0) >= tc - dt]
+        eb = [dict(e) for e in c.tracer.events.get(kind, []) if tc is not None and e.get("time", 0) >= tc - dt]
+        if not _same(ea, eb):
+            problems.append("%s events after the clone differ: original %r, clone %r" % (kind, ea[:2], eb[:2]))
+    if not _same(list(t.tracer.hops), list(c.tracer.hops)):
+        problems.append("hop events differ between clone and original")
+    for attr in ("delR", "delP", "rho", "position", "velocity"):
+        if hasattr(t, attr) and not _same(np.asarray(getattr(t, attr)), np.asarray(getattr(c, attr))):
+            problems.append("%s at the end differs between clone and original by %.3g" %
+                            (attr, float(np.max(np.abs(np.asarray(getattr(t, attr)) - np.asarray(getattr(c, attr)))))))
+    return not problems, {"cloned": True, "snapshots_compared": len(tail_a),
+                          "events": {kk: len(v) for kk, v in getattr(t.tracer, "events", {}).items()}, "problems": problems[:3]}, \
+        {"problems": []}, "; ".join(problems[:2]) or "ok"
+
+
+@safe_oracle
 def oracle_es_fresh_stream(args):
     """even-sampling spawns receive a fresh seed sequence: children keys differ from the parent's and from each other"""
     import mudslide
@@ -274,7 +335,7 @@ def oracle_hopper_repro(args):
         "; ".join(problems) or "ok"
 
 
-ORACLES = {"hopper_repro": oracle_hopper_repro, "repro": oracle_repro, "zeta_order": oracle_zeta_order, "clone": oracle_clone, "es_fresh_stream": oracle_es_fresh_stream}
+ORACLES = {"clone_midrun": oracle_clone_midrun, "hopper_repro": oracle_hopper_repro, "repro": oracle_repro, "zeta_order": oracle_zeta_order, "clone": oracle_clone, "es_fresh_stream": oracle_es_fresh_stream}
 
 
 def run(ctx):
@@ -373,6 +434,20 @@ def run(ctx):
             if "same log files" in text:
                 sig = "clone-shares-yaml-files"
             ctx.oracle_fail(sig, "clone", spec, obs, req, text)
+    # clones taken while the original keeps running
+    for i in range(ctx.budget(12, 200)):
+        cls = ["AugmentedFSSH", "TrajectorySH", "TrajectoryCum", "Ehrenfest"][i % 4]
+        a = dict(cls=cls, N=int(rng.integers(2, 4)), n=int(rng.integers(1, 3)), model_seed=int(rng.integers(1, 10 ** 6)),
+                 seed=int(rng.integers(1, 2 ** 31)), k=int(rng.integers(2, 25)), more=int(rng.integers(5, 30)))
+        if cls == "AugmentedFSSH" and (i // 4) % 2 == 0:
+            # through the coupling region of a built-in model, long enough for collapses (their logged rates are compared)
+            a.update(builtin=["dual", "simple"][(i // 8) % 2], p=float(rng.uniform(10, 18)), k=int(rng.integers(30, 60)), more=int(rng.integers(80, 120)))
+        ok, obs, req, text = oracle_clone_midrun(a)
+        ctx.case(("clone-midrun", cls, bool(a.get("builtin"))), {"check": "clone_midrun", "spec": a})
+        ctx.count("clone_midrun:" + cls)
+        ctx.count("clone_midrun_collapse_events_compared", int(obs.get("events", {}).get("collapse", 0)) if isinstance(obs.get("events"), dict) else 0)
+        if not ok:
+            ctx.oracle_fail("clone-midrun:" + cls, "clone_midrun", a, obs, req, text)
     for i in range(ctx.budget(4, 20)):
         a = {"seed": int(rng.integers(1, 2 ** 31)), "mcsamples": [1, 3][i % 2]}
         ok, obs, req, text = oracle_es_fresh_stream(a)
